@@ -112,7 +112,7 @@ func (prop) Describe() core.Description {
 		RealComponents: []string{"encoding/igc (Encoder.Encode, Read and its parser)", "go-geom LineString", "stdlib bufio.Scanner, fmt, regexp, time"},
 		StubComponents: []string{"io.Writer under the encoder (simio.Writer)", "the medium between writer and reader (line and byte edits)", "io.Reader under the decoder (simio.Reader: chunking, stalls incl. unbounded, data+EOF, error at offset, truncation)"},
 		FaultKinds:     []string{"read-split", "read-stall", "read-data+eof", "read-error", "read-truncate", "stall-forever", "line-drop", "line-dup", "line-swap", "line-tear", "line-long", "byte-edit", "write-fail"},
-		Probes:         []string{"probe:year<2000", "probe:year-rollover", "probe:day-rollover", "probe:lat==+-90", "probe:lon==+-180", "probe:alt-clamped", "probe:fractional-second", "probe:I-record", "probe:I-record-extends-B", "probe:B-shorter-than-announced", "probe:line>64KiB", "probe:torn-inside-B", "probe:noise-before-A", "probe:record-errors-returned", "probe:prefix-tracks", "probe:encoder-reused", "probe:local-zone-not-utc", "probe:extra-ordinates-nonzero"},
+		Probes:         []string{"probe:year<2000", "probe:year-rollover", "probe:day-rollover", "probe:lat==+-90", "probe:lon==+-180", "probe:alt-clamped", "probe:fractional-second", "probe:I-record", "probe:I-record-extends-B", "probe:B-shorter-than-announced", "probe:line>64KiB", "probe:torn-inside-B", "probe:noise-before-A", "probe:record-errors-returned", "probe:prefix-tracks", "probe:encoder-reused", "probe:local-zone-not-utc", "probe:extra-ordinates-nonzero", "probe:first-result-rechecked-after-later-decodes"},
 	}
 }
 
@@ -525,7 +525,7 @@ func clampAlt(alt float64) float64 {
 
 // checkTrack encodes fixes, reads them back through plan and applies the
 // clean-pipe oracle.
-func checkTrack(res *core.Result, log *core.Log, s *Scenario, ses *session, fixes []Fix, plan simio.ReadPlan, what string) bool {
+func checkTrack(res *core.Result, log *core.Log, s *Scenario, ses *session, fixes []Fix, plan simio.ReadPlan, what string, keep *kept) bool {
 	ls := buildTrack(s.Layout, fixes, float64(s.Extra))
 	if s.Layout > 4 && float64(s.Extra) != 0 {
 		res.Count("probe:extra-ordinates-nonzero", 1)
@@ -593,7 +593,25 @@ func checkTrack(res *core.Result, log *core.Log, s *Scenario, ses *session, fixe
 		res.Fail("clean-pipe-errors", sig, "Read (%s) of the encoder's own output reported errors: %s; stream:\n%s", what, oneLine(msg), head(w.Buf))
 		return false
 	}
-	got := t.LineString
+	if ses != nil || keep != nil {
+		if keep != nil {
+			*keep = kept{t: t, fixes: fixes, stream: w.Buf, what: what}
+		}
+	}
+	return verifyTrack(res, fixes, t.LineString, what, w.Buf)
+}
+
+// kept is a decode result that is looked at again after later decodes.
+type kept struct {
+	t      *igc.T
+	fixes  []Fix
+	stream []byte
+	what   string
+}
+
+// verifyTrack applies the clean-pipe oracle to a decoded track.
+func verifyTrack(res *core.Result, fixes []Fix, got *geom.LineString, what string, stream []byte) bool {
+	w := struct{ Buf []byte }{stream}
 	if got.Stride() != 5 || len(got.FlatCoords())%5 != 0 {
 		res.Fail("not-5d", "not-5d", "Read (%s) returned stride %d with %d ordinates", what, got.Stride(), len(got.FlatCoords()))
 		return false
@@ -710,14 +728,35 @@ func (prop) Execute(scAny any, phase string, log *core.Log) core.Result {
 		if s.Reuse {
 			ses = &session{}
 		}
-		if !checkTrack(&res, log, s, ses, s.Fixes, s.Read, "whole track") {
+		var first kept
+		if !checkTrack(&res, log, s, ses, s.Fixes, s.Read, "whole track", &first) {
 			return res
 		}
 		fired := res.Counters["read-split"]+res.Counters["read-stall"]+res.Counters["read-data+eof"] > 0
 		if len(s.Fixes) <= 24 {
 			for n := 0; n < len(s.Fixes); n++ {
 				res.Count("probe:prefix-tracks", 1)
-				if !checkTrack(&res, log, s, ses, s.Fixes[:n], s.Read, fmt.Sprintf("prefix of %d fixes", n)) {
+				if !checkTrack(&res, log, s, ses, s.Fixes[:n], s.Read, fmt.Sprintf("prefix of %d fixes", n), nil) {
+					return res
+				}
+			}
+			// the first result is the caller's: later decodes must not have
+			// reached into it
+			if first.t != nil && len(s.Fixes) > 0 {
+				// one more decode of a track that differs in every position and
+				// altitude (the prefixes repeat the first track's values)
+				decoy := make([]Fix, len(s.Fixes))
+				for i, f := range s.Fixes {
+					decoy[i] = Fix{Lon: mgeom.F(clampF(1.5-float64(f.Lon), -180, 180)), Lat: mgeom.F(clampF(0.75-float64(f.Lat), -90, 90)), Alt: mgeom.F(9876 - clampAlt(float64(f.Alt))), T: f.T}
+				}
+				if !checkTrack(&res, log, s, ses, decoy, s.Read, "decoy track", nil) {
+					return res
+				}
+				res.Count("probe:first-result-rechecked-after-later-decodes", 1)
+				if !verifyTrack(&res, first.fixes, first.t.LineString, first.what+", looked at again after the later decodes of this run", first.stream) {
+					if res.Violation != nil {
+						res.Violation.Sig = "result-changed-later:" + res.Violation.Sig
+					}
 					return res
 				}
 			}
